@@ -391,6 +391,9 @@ func limGrid(level int) []limCfg {
 		limCfg{algo: "gradient", initial: 990, min: 1, max: 1000, smoothing: 1.0, queue: "sqrt4", tol: 2.0, probe: -1},
 		limCfg{algo: "gradient2", initial: 998, min: 4, max: 1000, smoothing: 1.0, queue: "sqrt4", longWin: 3},
 		limCfg{algo: "vegas", initial: 998, max: 1000, smoothing: 1.0, probe: 30},
+		// fractional estimates just below the table length (smoothing < 1)
+		limCfg{algo: "vegas", initial: 998, max: 1000, smoothing: 0.5, probe: 30},
+		limCfg{algo: "gradient2", initial: 998, min: 4, max: 1000, smoothing: 0.5, queue: "sqrt4", longWin: 3},
 	)
 	if level > 0 {
 		g = append(g,
